@@ -31,6 +31,7 @@ Obs(post) ==
    saved     |-> post.saved,
    startH    |-> post.startH,
    reported  |-> {},          \* ghost, carried by the trace spec (see StepCall)
+   upd       |-> NoUpd,       \* position inside a stopped Update: carried by the trace spec
    inflight  |-> {[tk |-> post.inflight[i].tk, id |-> post.inflight[i].id, h |-> post.inflight[i].h] : i \in DOMAIN post.inflight}]
 
 D(what, spec) == [l |-> l, what |-> what, spec |-> spec]
@@ -61,7 +62,8 @@ StepCall(e) ==
       bad == StateStepViol(c, p, q) \cup StepViol(c, p, q, a)
   IN
   /\ c' = c
-  /\ p' = [q EXCEPT !.reported = r.p.reported]
+  /\ p' = [q EXCEPT !.reported = r.p.reported,
+                    !.upd = IF e.ev = "UpdateBegin" /\ e.stage = "finished" THEN NoUpd ELSE r.p.upd]
   /\ drift' = drift
        \cup FailIf(\E i \in DOMAIN q.buffer : ~KnownPair(c, q.buffer[i]), D(e.ev \o ": consensus buffer holds a pair the context does not know", "pair"))
        \cup (IF e.ev = "Report" THEN FailIf(~KnownPair(c, e.pair), D("Report: unknown pair", "pair")) ELSE {})
@@ -76,7 +78,13 @@ StepCall(e) ==
        \cup (IF hasRes THEN FailIf(r.res # e.res \/ r.why # e.why, D(e.ev \o ": result differs", r.res \o "/" \o r.why)) ELSE {})
        \cup (IF e.ev = "Update" THEN FailIf(<<e.A, e.D>> # <<ParamsAt(c, e.to).A, ParamsAt(c, e.to).D>>,
                                             D("Update: age limits of the new state differ from the context", "params")) ELSE {})
-       \cup (IF e.ev = "AddBegin" THEN FailIf((e.stage = "parked") # AddLookups(c, p, e.id), D("AddBegin: look-ups differ", "lookups")) ELSE {})
+       \* parked at the harness's gate (after the look-ups) / waiting for pendingMtx (store step
+       \* while the committing goroutine is inside its critical section)
+       \cup (IF e.ev = "AddBegin" /\ e.how = "gate" THEN FailIf((e.stage = "parked") # AddLookups(c, p, e.id), D("AddBegin: look-ups differ", "lookups")) ELSE {})
+       \cup (IF e.ev = "AddBegin" /\ e.how = "mutex" THEN FailIf(~AddBlocks(c, p, e.id), D("AddEvidence waits for the mutex although its store step is not locked out", "mutex")) ELSE {})
+       \cup (IF e.ev = "Add" THEN FailIf(AddBlocks(c, p, e.id), D("AddEvidence completed although the committing goroutine holds the store mutex", "mutex")) ELSE {})
+       \cup (IF e.ev = "UpdateBegin" THEN FailIf((e.stage = "paused") # (Pausable(e.ids, e.k) /\ e.res # "panic"),
+                                                 D("UpdateBegin: number of committed-marker writes differs", "markers")) ELSE {})
        \cup (IF e.ev = "Pending"
              THEN LET pe == PendingEvidence(c, p, e.mb) IN
                   FailIf(pe.got # e.got \/ pe.bytes # e.bytes, D("Pending: result differs", "pending"))
